@@ -32,7 +32,10 @@ MANIFEST_ENTRY = {
             "at most one failing storage call (before or after its effect) anywhere in a commit, the commit returns an error "
             "with running and stored contents unchanged and the queue kept, or success with both showing the new state, and the "
             "stored manifest never refers to a missing segment; C03_any_faults_openable - for any number of failing calls the "
-            "stored manifest never refers to missing files; C03_unfixed_* show the two defects of the code as found (repaired). "
+            "stored manifest never refers to missing files; C03_add_fault_safe / C03_rollback_fault_safe / "
+            "C03_compact_faults_openable / C03_compact_ok_complete - the same for add/delete, rollback and compaction (small "
+            "models of their ?-structure; compaction may leave memory and storage on different but content-equal segment lists, "
+            "both referring to existing files); C03_unfixed_* show the two defects of the code as found (repaired). "
             "All of add/delete/commit/rollback/compaction under every single fault position and sampled double faults are decided "
             "on the real implementation by the executable specification C03.Model.spec evaluated in Coq.",
     "note": "Trusted: Coq kernel; the commit-path model; the fault-injecting wrapper. Partial: only commit has a Coq model under "
